@@ -161,10 +161,16 @@ class VSocket(object):
             data = data[:max(1, len(data) // 2)]    # short write
         if c.eof_pending:
             c.sent_after_end += len(data)
-            if self.net.send_after_close == 'raise' or (
-                    self.net.send_after_close == 'ok_once'
+            mode = self.net.send_after_close
+            if mode in ('raise', 'reset') or (
+                    mode in ('ok_once', 'reset_once')
                     and c.sent_after_end > len(data)):
                 S.event('send-fail', c.id, S.me().id)
+                if mode.startswith('reset'):
+                    # the peer's reset has arrived (it closed with unread
+                    # data of ours in its receive buffer)
+                    raise ConnectionResetError(errno.ECONNRESET,
+                                               'Connection reset by peer')
                 raise BrokenPipeError(errno.EPIPE, 'Broken pipe')
         c.c2s += data
         c.sends.append((S.me().id, data, c.consumed))
